@@ -44,7 +44,7 @@ TRACT_LEVEL = ("clean_qq", "suppress_lot_divs", "qq_depth", "qq_depth_min",
 INIT_KW = {"PLSSDesc": ("layout", "parse_qq", "wait_to_parse"),
            "Tract": ("parse_qq",)}
 FAMILIES = ("channels", "precedence", "master", "reject", "roundtrip",
-            "wait", "twprgesec")
+            "wait", "twprgesec", "displace")
 
 BOGUS_NAMES = ("config_name.abc", "config_text", "from_dict", "decompile_to_text",
                "_CONFIG_ATTRIBUTES", "config_name", "from_kwargs.1",
@@ -70,7 +70,7 @@ def _other_value(rng, name, val):
 def gen_plan(rng):
     fam = rng.choice(("channels", "channels", "channels", "precedence",
                       "precedence", "master", "master", "reject", "wait",
-                      "twprgesec"))
+                      "twprgesec", "displace"))
     cls = "PLSSDesc" if rng.random() < 0.6 else "Tract"
     none_extra = rng.choice(("parse_qq", "clean_qq", "wait_to_parse",
                              "segment", "ocr_scrub", "break_halves",
@@ -126,6 +126,28 @@ def gen_plan(rng):
                     old["qq_depth_max"] < old["qq_depth_min"]:
                 old["qq_depth_max"] = old["qq_depth_min"]
             draw["old"] = old
+    elif fam == "displace":
+        # the documented rule: a qq_depth_min / qq_depth_max KEYWORD displaces
+        # a configured qq_depth (the keyword's companion falls back to the
+        # configured min / max)
+        draw["old"] = {"qq_depth": rng.choice((1, 2, 3))}
+        if rng.random() < 0.4:
+            draw["old"]["qq_depth_min"] = rng.choice((1, 2))
+        if rng.random() < 0.4:
+            draw["old"]["qq_depth_max"] = rng.choice((2, 3))
+        sig = {}
+        r_ = rng.random()
+        if r_ < 0.45:
+            sig["qq_depth_max"] = rng.choice((2, 3, 4))
+        elif r_ < 0.9:
+            sig["qq_depth_min"] = rng.choice((1, 2, 3))
+        else:
+            sig = {"qq_depth_min": rng.choice((1, 2)),
+                   "qq_depth_max": rng.choice((3, 4))}
+        draw["sigma"] = sig
+        draw["text"] = (corpus.WITNESS if cls == "PLSSDesc"
+                        else corpus.TRACT_WITNESS)[
+            rng.choice(("qq_depth", "qq_depth_min", "qq_depth_max"))]
     elif fam == "master":
         draw["mc"] = {"ns": rng.choice(("n", "s", "s", "S")),
                       "ew": rng.choice(("e", "w", "e", "E"))}
@@ -527,6 +549,32 @@ def build(draw):
                                     "default_ns": d["default_ns"],
                                     "default_ew": d["default_ew"]})]
             pairs.append(("M", "Mk", "final"))
+    elif fam == "displace":
+        # expected: configured min/max (not qq_depth) overridden by keywords
+        eff = {k: v for k, v in old.items() if k != "qq_depth"}
+        eff.update(sigma)
+        if cls == "PLSSDesc":
+            H["Z"] = [desc(txt(old, sep), parse_qq=True)]
+            H["A"] = [desc(txt(eff, sep) or None, parse_qq=True)]
+            H["K"] = [desc(txt(old, sep), parse_qq=True), parse(**sigma)]
+            H["K2"] = [desc(None, wait_to_parse=True, parse_qq=True),
+                       setc(txt(old, sep)), parse(**sigma)]
+            H["K-"] = [desc(txt(old, sep), parse_qq=True),
+                       parse(commit=False, **sigma)]
+            H["KT"] = [desc(txt(old, sep), parse_qq=True),
+                       {"op": "parse_tracts", "config": None,
+                        "kw": dict(sigma)}]
+            pairs += [("A", "K", "final"), ("A", "K2", "final"),
+                      ("A", "K-", "ret_vs_tracts"), ("A", "KT", "final")]
+        else:
+            H["Z"] = [tract(txt(old, sep), parse_qq=True)]
+            H["A"] = [tract(txt(eff, sep) or None, parse_qq=True)]
+            H["K"] = [tract(txt(old, sep)), parse(**sigma)]
+            H["K2"] = [tract(None), setc(txt(old, sep)), parse(**sigma)]
+            H["K-"] = [tract(txt(old, sep), parse_qq=True),
+                       parse(commit=False, **sigma)]
+            pairs += [("A", "K", "final"), ("A", "K2", "final"),
+                      ("A", "K-", "ret_vs_lots_qqs")]
     elif fam == "wait":
         w = sigma["wait_to_parse"]
         s_text = opgen.setting_to_text("wait_to_parse", w)
@@ -553,6 +601,18 @@ def build(draw):
         if kw and len(kw) == len(sigma):
             H["K"] = [dict(ft, kw=kw)]
             pairs.append(("A", "K", "trs"))
+        kwd = {k: v for k, v in sigma.items() if k != "ocr_scrub"}
+        if old and kwd:
+            shared_o = {"__cfg_text": txt(old, ","), "shared": True}
+            H["Ro"] = [dict(ft, config=txt(old, ","))]
+            H["Rs"] = [{"op": "other_from", "text": "NE/4", "tw": tw,
+                        "config": shared_o, "kw": dict(kwd)},
+                       dict(ft, config=shared_o)]
+            H["Rt"] = [{"op": "other_from", "text": "NE/4", "tw": tw,
+                        "config": shared_o, "kw": dict(kwd)},
+                       tract(shared_o),
+                       {"op": "set_twprgesec", "tw": tw, "kw": {}}]
+            pairs += [("Ro", "Rs", "trs"), ("Ro", "Rt", "trs")]
         if old:
             o_text = txt(old, sep)
             H["P"] = [tract(o_text),
@@ -791,6 +851,11 @@ def run_history(ops):
                 out = {"ok": subj.preprocess(commit=op["commit"], **op["kw"])}
             elif kind == "deduce_layout":
                 out = {"ok": subj.deduce_layout()}
+            elif kind == "other_from":
+                tw_ = op["tw"]
+                pytrs.Tract.from_twprgesec(op["text"], tw_[0], tw_[1], tw_[2],
+                                           config=op["config"], **op["kw"])
+                out = {"ok": None}
             elif kind == "other_tract":
                 # another Tract built from the SAME Config object first,
                 # with an init keyword that disagrees with that Config
